@@ -13,7 +13,7 @@ C01 R01.5/R01.6, C04) on boundary values of the operand and compared with the va
 
 A tree with a node kind the evaluator does not know is undecided, never a violation."""
 import struct
-from .interp import Interp, Obj, View, Cell, _Ref, VarPlace
+from .interp import Interp, Obj, View, Cell, _Ref, VarPlace, Infeasible
 from .lib_parse import TokenModel, OTHER
 from .lib_types import Types, SIZE, UNS, FPR, promote
 from .build import AnalysisBroken
@@ -577,7 +577,61 @@ VALUE_FORMS = [('simple-assignment', 'x = b', 'C11 6.5.16p3: an assignment expre
                ('comma', '(b, x)', 'C11 6.5.17p2: the result of the comma operator has the type and value of its right operand'),
                ('compound-assignment', '++x / x += b', 'C11 6.5.16.2p3 and 6.5.3.1p2: x op= b and ++x are equivalent to x = x op b'),
                ('postfix-increment', 'x++', 'C11 6.5.2.4p2: the result of postfix ++ is the value of the operand'),
-               ('explicit-cast', '(T)x', 'C11 6.5.4p5: a cast converts the value to the named type; the result is no bit-field any more')]
+               ('explicit-cast', '(T)x', 'C11 6.5.4p5: a cast converts the value to the named type; the result is no bit-field any more'),
+               ('gnu-conditional', 'x ?: b', 'GNU C (Conditionals with Omitted Operands): x ?: b is x ? x : b with x evaluated once; the second operand of ?: undergoes the integer promotions (6.5.15p5)'),
+               ('statement-expression', '({ x; })', 'GNU C (Statement Exprs): the value of the last expression statement is the value of the construct, with its type')]
+
+
+def gnu_conditional_trees(B, decl, width):
+    """the trees conditional() (parse.c) builds for `x ?: b` with x an operand of the given shape (first operand parsed) and b an int variable:
+    [(interpreter, ctx, tree)]. The operand parser of the level (logor) is cut; conditional() itself, new_lvar's callers, new_var_node, new_binary
+    and add_type run for real."""
+    T, E = B.T, B.E
+    pu = B.pu
+    for f in ('conditional', 'logor'):
+        if f not in pu.functions:
+            raise AnalysisBroken('parse.c: %s vanished' % f)
+    tm = None
+
+    def h_operand(it, ctx, n, args):
+        k = getattr(ctx, 'c01_operands', 0)
+        ctx.c01_operands = k + 1
+        if k == 0:
+            node = B.operand(it, decl, width)
+            ctx.c01_leaf = node
+        else:
+            tok = Obj('Token', lazy=True, label=ctx.fresh('B.tok'))
+            node = Obj('Node', lazy=False, label=ctx.fresh('B'), fields={'kind': E['ND_VAR'], 'ty': T.make(it, 'int'), 'tok': tok,
+                                                                        'var': Obj('Obj', lazy=False, label=ctx.fresh('B.var'), fields={'ty': T.make(it, 'int'), 'is_local': 1})})
+        ctx.emit('call', 'logor', args, n.line, node)
+        nxt = Obj('Token', lazy=True, label=ctx.fresh('tok.after.logor'))
+        if k > 0:
+            nxt.meta['spell'] = Cell([OTHER], nxt.label + '.spelling')       # the expression ends after the second operand
+        tm._store_rest(it, args[0], nxt)
+        return node
+    opaque = [f for f in ('expr', 'error_tok', 'new_unique_name') if f in pu.functions]
+    tm = TokenModel(B.P, pu, ['conditional'], extra_opaque=opaque, cut={'logor': h_operand}, forever_limit=2)
+    tm.cfg['models'] = {'new_lvar': lambda it_, ctx, n, a: Obj('Obj', lazy=False, label=ctx.fresh('tmp'), fields={'ty': a[1], 'name': a[0], 'is_local': 1})}
+    tm.cfg['rec_limit'] = 16
+    tm.cfg['max_depth'] = 120
+    it = tm.interp()
+
+    def mk(ctx):
+        it.ctx = ctx
+        return [_Ref(VarPlace({'rest': None}, 'rest')), tm.token('tok')]
+    from .lib_exprparse import ops_taken
+    out = []
+    for ctx, o in it.explore('conditional', mk, max_paths=200):
+        if o[0] != 'ret':
+            continue
+        if [x for x in ops_taken(ctx) if x != '<other>'] != ['?', ':'] or getattr(ctx, 'c01_operands', 0) != 2:
+            continue
+        if any(e[0] == 'call' and e[1] == 'expr' for e in ctx.events):
+            continue                                   # x ? y : b with a middle operand: not the GNU form
+        tree = it.settle(o[1]) if isinstance(o[1], View) else o[1]
+        if isinstance(tree, Obj):
+            out.append((it, ctx, tree))
+    return out
 
 
 def r_bitfield_values(P, rep, rule):
@@ -633,6 +687,19 @@ def r_bitfield_values(P, rep, rule):
                 else:
                     f = Obj('Node', lazy=False, label='F', fields={'kind': E['ND_CAST'], 'lhs': leaf, 'ty': T.make(it, decl), 'tok': tok})
                 forms[form] = (it, ctx, f)
+            for k in ('ND_STMT_EXPR', 'ND_EXPR_STMT'):
+                if k not in E:
+                    raise AnalysisBroken('enumerator %s vanished' % k)
+            leaf = B.operand(it, decl, width)
+            tok = leaf.fields['tok']
+            st = Obj('Node', lazy=False, label='F.stmt', fields={'kind': E['ND_EXPR_STMT'], 'lhs': leaf, 'tok': tok, 'next': 0})
+            forms['statement-expression'] = (it, ctx, Obj('Node', lazy=False, label='F', fields={'kind': E['ND_STMT_EXPR'], 'body': st, 'tok': tok}))
+        try:
+            gc = gnu_conditional_trees(B, decl, width)
+        except AnalysisBroken as e:
+            gc = []
+        if len(gc) == 1:
+            forms['gnu-conditional'] = gc[0]
         for form, text, clause in VALUE_FORMS:
             key = 'type.c:add_type:bit-field-valued/%s/%s' % (name, form)
             if form not in forms:
@@ -658,7 +725,7 @@ def r_bitfield_values(P, rep, rule):
             except NotEvaluable as e:
                 rep.undecided(rule, key, str(e), where=where)
                 continue
-            except AnalysisBroken as e:
+            except (AnalysisBroken, Infeasible) as e:
                 rep.undecided(rule, key, 'add_type not interpretable on the tree built for %s: %s' % (text, e), where=where)
                 continue
             if bad:
